@@ -26,7 +26,7 @@ int main(int argc, char** argv) {
         fflush(stdout);
         pid_t pid = fork();
         if (pid == 0) {
-            close(fd[0]); vh_out = fdopen(fd[1], "w"); int devnull = open("/dev/null", 1); dup2(devnull, 2);
+            signal(SIGABRT, SIG_DFL); close(fd[0]); vh_out = fdopen(fd[1], "w"); int devnull = open("/dev/null", 1); dup2(devnull, 2);
             print_fields((int32_t)lam);
             fflush(vh_out); _exit(0);
         }
